@@ -62,6 +62,17 @@ def send (c wall : Nat) : Except Err Nat :=
   let cOld := counter c
   let tsNew := max tsOld wall
   if tsNew - wall > MAX_CLOCK_DRIFT_MS then .error .clockDrift
+  else if durSecs tsNew > TIMESTAMP_MAX then .error .overflow      -- not representable (fix D16)
+  else if tsOld = tsNew then
+    (if cOld + 1 > 65535 then .error .overflow else .ok (pack tsNew (cOld + 1) (node c)))
+  else .ok (pack tsNew 0 (node c))
+
+/-- `send` before the `fix:` commit for D16: no range check, the packed seconds wrap. -/
+def sendLegacy (c wall : Nat) : Except Err Nat :=
+  let tsOld := dts c
+  let cOld := counter c
+  let tsNew := max tsOld wall
+  if tsNew - wall > MAX_CLOCK_DRIFT_MS then .error .clockDrift
   else if tsOld = tsNew then
     (if cOld + 1 > 65535 then .error .overflow else .ok (pack tsNew (cOld + 1) (node c)))
   else .ok (pack tsNew 0 (node c))
@@ -89,6 +100,7 @@ def recv (c wall msg : Nat) : Res (Nat × Nat) :=
       let cOld := counter c
       let tsNew := max (max tsOld wall) tsMsg
       if tsNew - wall > MAX_CLOCK_DRIFT_MS then .err .clockDrift
+      else if durSecs tsNew > TIMESTAMP_MAX then .err .overflow      -- not representable (fix D16)
       else match recvCounter tsNew tsOld tsMsg cOld cMsg with
         | .error e => .err e
         | .ok cNew =>
